@@ -7,11 +7,24 @@ pool objects are never mutated afterwards (setitem works on a clone), so views r
 library cannot couple the two worlds.  After every step the library result must agree with the
 model bit for bit (space: names, order, dims; tensor: shape, dtype, bytes).
 
+Steps that produce a new Points (getitem, join, joined, |, repeat, unsqueeze, arithmetic) may
+carry a "probe": {"idx", "fill"}: the step is then executed on PRIVATE copies of its operands,
+and the fresh result r is written to in place, r[idx] = v (idx addresses one row / block / a few
+rows of r).  Afterwards the whole of r must equal the model (only the addressed rows x columns
+changed - rows of a result are independent table rows) and, for the operations where the
+unmodified library builds the result in fresh memory (repeat, join and | of two non-empty
+operands, joined, arithmetic), every operand must still hold its values.  For unsqueeze and
+indexing (torch views on the clean tree) only the result is compared.  The repeat step can
+first reduce its operand to a single row ("pre": "row") or put a length-one axis in front with
+the library's unsqueeze(0) ("pre": "unsq0"), and can restrict the repetition to the batch axes
+of length one ("only1").
+
 Index expressions are JSON: {"form", "items", "k", "kp", "sel", "bits"} with tagged items
   {"t":"int","v":..} {"t":"slice","a","b","s"} {"t":"mask","bits":[..],"as":"torch|numpy"}
   {"t":"idx","v":[..],"as":"torch|numpy|list"}
 and selectors (positions into the object's ordered name list, modulo its length)
-  {"t":"name","pos":p} {"t":"names","pos":[..],"as":"tuple|list"} {"t":"nslice","a":p|None,"b":p|None}
+  {"t":"name","pos":p} {"t":"names","pos":[..],"as":"tuple|list"}
+  {"t":"nslice","a":p|None,"b":p|None[,"s":step]}   ('x':'t', :'t', 'u'::-1, ::-1, :'x':-2, ::2)
 They are normalised against the shape of the object they are applied to at run time, so every
 generated expression is valid for its target (see `decode_index`).
 
@@ -22,10 +35,13 @@ src/torchphysics):
              index tensor | ndarray | list), p[...,]
   full       p[b1,..,b_nb, SEL]
   ellipsis   p[b.., ..., b.., SEL]
-  SEL        'x' | ('x','t') | ['t','x'] | 'x':'t' | :
+  SEL        'x' | ('x','t') | ['t','x'] | 'x':'t' | : | 'x':'t':s  (name slice with step s,
+             also negative and with omitted bounds: Space.__getitem__ hands start/stop/step to
+             list slicing of the ordered names; oracle = python slicing of the name list)
 NOT generated (outside the grammar; the library rejects or re-interprets them): a bare list
 p[[0,2]] (every library/test use writes p[[0,2],]), integers / masks on the column axis, a
-trailing `...` behind other entries, negative slice steps, a name selector without `...` when
+trailing `...` behind other entries, negative slice steps on BATCH axes (torch rejects them),
+name slices that select no variable, a name selector without `...` when
 fewer entries than axes are given, several boolean masks in one expression.
 """
 import numpy as np
@@ -45,26 +61,46 @@ RULE = ("Hypothesis draws a history: an initial Points (1-5 variables of dim 1-4
         "rejected), repeat, unsqueeze, + - * / **, == (copy / reordered space / renamed / "
         "perturbed cell / other object), track_coord_gradients, iteration, and Space product / "
         "containment / indexing / dim / equality. Index expressions are drawn from the "
-        "documented grammar only and normalised to the target's shape. Oracle: bitwise model "
+        "documented grammar only and normalised to the target's shape; name slices (column "
+        "selector of Points and Space[...]) carry a step in about half of the draws (-1,-2,-3,2,1; "
+        "negative steps with omitted start and/or stop over-weighted), oracle = python slicing "
+        "of the ordered name list. repeat is drawn with 1-3 counts of 1-3 on operands whose "
+        "batch axes have length 1-4, optionally on a single row of the operand, on "
+        "operand.unsqueeze(0) (batch (1,n,..)) or only along the length-one axes. About half of "
+        "the getitem(1/4)/join/joined/|/repeat(2/3)/unsqueeze/arithmetic(1/4) steps are followed "
+        "by an in-place write r[idx] = v into one row/block (int, short slice, 1-2 indices, mask "
+        "on batch axis 0, optionally further axes and a name selector) of the fresh result r: "
+        "afterwards r must equal the model (only the addressed block changed) and - for repeat, "
+        "join, joined, |, arithmetic, where the clean library builds fresh memory - the "
+        "(private copies of the) operands must be unchanged. Oracle: bitwise model "
         "agreement after every step plus the algebraic relations; inputs must stay unchanged. "
         "Non-trivial: some step selected >=2 variables in an order different from storage "
         "order, or operated on an object with >=2 batch axes, or >=3 ops were executed; "
         "distinct = spec hash. Half of the cases carry avoid_known=true: index expressions "
         "that fall into the regions of the known findings D23 / C12-N1 are rewritten to an "
         "equivalent accepted form (counted as excluded-known:*). extra_cases sweeps a fixed list of ~70 index expressions over "
-        "objects with 1, 2 and 3 batch axes for getitem, setitem and commutation.")
+        "objects with 1, 2 and 3 batch axes for getitem, setitem and commutation, 12 stepped "
+        "name slices (all open/closed bound combinations, steps -1,-2,-3,2,1) for Space[...], "
+        "getitem, setitem and commutation, and repeat (x single row / unsqueeze(0) / as is, "
+        "x counts (1),(k),(k,1,2)) plus every other result-producing operation followed by six "
+        "fixed probe writes on batches (1),(4),(1,3),(3,1),(2,1,2).")
 ASSUMPTIONS = [
     "index grammar = forms shown in the Points docstring, tests/test_points.py and used inside "
-    "src/torchphysics; bare list indices, trailing Ellipsis, negative steps, column integers "
-    "are not generated",
+    "src/torchphysics; bare list indices, trailing Ellipsis, negative steps on batch axes, "
+    "column integers are not generated; name slices with a step (documented argument type "
+    "'slice', handed to list slicing by Space.__getitem__) are generated, empty name selections "
+    "are not",
     "where numpy and torch differ (integer and array index separated by a slice) the model "
     "follows torch: integers select first",
     "+ - * / compared bitwise against numpy IEEE arithmetic of the same dtype; ** compared with "
     "1e-12 (float64) / 1e-5 (float32) relative tolerance because pow is not correctly rounded",
     "setitem index arrays are de-duplicated (assignment order with duplicates is unspecified)",
     "Space containment is only asked for candidates whose shared names have equal dimensions",
-    "view/aliasing behaviour of results is not part of the property: pool objects are never "
-    "mutated, setitem is applied to a clone",
+    "pool objects are never mutated, setitem is applied to a clone; whether a result aliases its "
+    "operand is only asserted (through a follow-up write into the result, on private operand "
+    "copies) for repeat, join/| of two non-empty operands, joined and arithmetic, where the "
+    "unmodified library allocates the result; for unsqueeze/indexing (torch views) only 'a "
+    "write into one block of the result changes exactly that block of the result' is asserted",
 ]
 BUDGET = {"quick": {"examples": 600, "workers": 4},
           "thorough": {"examples": 6000, "workers": 14}}
@@ -438,6 +474,17 @@ def _dec_sel(sel, names):
         a, b = sel.get("a"), sel.get("b")
         ia = None if a is None else int(a) % n
         ib = None if b is None else int(b) % n
+        step = sel.get("s")
+        if step is not None:
+            # name slice with a step (negative: reversed order); oracle = slicing the name list.
+            # An empty selection (a Points without columns) is avoided by dropping the stop.
+            step = int(step) or -1
+            chosen = names[slice(ia, ib, step)]
+            if not chosen:
+                ib = None
+                chosen = names[slice(ia, None, step)]
+            real = slice(None if ia is None else names[ia], None if ib is None else names[ib], step)
+            return real, list(chosen), "nslice-step"
         if ia is not None and ib is not None:
             if ia > ib:
                 ia, ib = ib, ia
@@ -562,7 +609,7 @@ def decode_index(idx, m, unique=False, avoid=False):
     if isinstance(real, tuple) and nb >= 2 and len(real) < nb + 1 and real and \
             all(isinstance(x, int) and not isinstance(x, bool) for x in real):
         cls = "two-batch-index"
-    elif sel_kind in ("names", "nslice", "colon") and any(k in ("mask", "idx") for k in kinds):
+    elif sel_kind in ("names", "nslice", "nslice-step", "colon") and any(k in ("mask", "idx") for k in kinds):
         cls = "adv-rows-name-list"
     excluded = None
     if avoid and cls == "two-batch-index":
@@ -689,8 +736,13 @@ def op_get(S, op):
     exp, _ = model_getitem(m, dec)
     feature = _feat("getitem", dec)
     what = f"{dec['desc']} on space {m.space_items()} batch {m.batch}"
+    if op.get("probe"):
+        real = private(S, real, m)
     out = lib_call(S, what, feature, lambda: real[dec["real"]])
     ok = out is not FAILED and agree(S, out, exp, "model-mismatch", feature, what)
+    if ok and dec["cls"] == "plain":
+        # basic indexing returns views of the operand: only the result itself is compared
+        ok, exp = probe_write(S, out, exp, op, "getitem", [])
     push(S, out, exp, ok)
 
 
@@ -721,7 +773,16 @@ def op_set(S, op):
     def assign():
         clone[dec["real"]] = vreal
     r = lib_call(S, what, feature, assign)
-    # model: assign rows
+    exp = _model_assign(m, rid, val)
+    ok = r is not FAILED and agree(S, clone, exp, "model-mismatch", feature, what)
+    if ok:
+        okv = agree(S, vreal, val, "input-modified", "setitem", "assigned value changed")
+        ok = ok and okv
+    push(S, clone, exp, ok)
+
+
+def _model_assign(m, rid, val):
+    """Model of p[rows, names(val)] = val: only the addressed rows x columns change."""
     flat_rows = rid.reshape(-1)
     cols = {}
     for n in m.names:
@@ -732,12 +793,48 @@ def op_set(S, op):
             c2[flat_rows] = val.cols[n].reshape(-1, d)
             c = c2.reshape(m.batch + (d,))
         cols[n] = c
-    exp = M(m.names, cols, m.batch)
-    ok = r is not FAILED and agree(S, clone, exp, "model-mismatch", feature, what)
-    if ok:
-        okv = agree(S, vreal, val, "input-modified", "setitem", "assigned value changed")
-        ok = ok and okv
-    push(S, clone, exp, ok)
+    return M(m.names, cols, m.batch)
+
+
+def private(S, real, m):
+    """Private copy of a pool object (operand of a step that is followed by an in-place
+    probe write), so that the pool itself is never written to."""
+    return mk_points(S, real.as_tensor.detach().clone(), m.space_items())
+
+
+def probe_write(S, out, exp, op, opname, sources):
+    """Follow-up write into ONE row/block of a freshly produced result `out` (model `exp`):
+    out[idx] = v is executed IN PLACE on the object the library returned.  Afterwards the whole
+    result must equal the model (only the addressed rows x columns changed: the rows of a
+    result are independent table rows), and every operand in `sources` [(real, model, label)]
+    must still have its values.  `sources` lists only operands of operations for which the
+    unmodified library builds the result in fresh memory (repeat, join, joined, |, arithmetic);
+    for unsqueeze / indexing, where torch returns views, it is empty.  All operands are
+    private copies, the pool is not touched.  Returns (ok, model after the write)."""
+    probe = op.get("probe")
+    if not probe or out is FAILED or not exp.names:
+        return True, exp
+    dec = decode_index(probe.get("idx") or {}, exp, unique=True, avoid=True)
+    target, rid = model_getitem(exp, dec)
+    val = fresh_model(target.space_items(), target.batch, probe.get("fill", [3, 5]), S.dtype)
+    vreal = build_real(S, val)
+    feature = opname + "-then-setitem"
+    what = f"r = {opname}(...) with batch {exp.batch}, space {exp.space_items()}; r{dec['desc'][1:]} = v"
+    S.cls("probe:" + opname)
+    S.cls("probe-item:" + (dec["kinds"][0] if dec["kinds"] else "all-rows"))
+
+    def assign():
+        out[dec["real"]] = vreal
+    r = lib_call(S, what, feature, assign)
+    if r is FAILED:
+        return False, exp
+    after = _model_assign(exp, rid, val)
+    ok = agree(S, out, after, "model-mismatch", feature,
+               what + ": result after the assignment (only the addressed block may change)")
+    for sr, sm, label in sources:
+        agree(S, sr, sm, "input-modified", feature,
+              what + f": operand {label} of {opname} changed by the assignment to the result")
+    return ok, after
 
 
 def op_commute(S, op):
@@ -837,6 +934,9 @@ def op_join(S, op):
     if len(m.names) + len(o_m.names) > MAX_VARS:
         S.skipped += 1
         return
+    probing = bool(op.get("probe")) and not m.is_empty() and not o_m.is_empty()
+    if probing:       # (join with an empty operand returns the other operand itself)
+        real, o_real = private(S, real, m), private(S, o_real, o_m)
     a_r, a_m, b_r, b_m = (real, m, o_real, o_m) if left else (o_real, o_m, real, m)
     if a_m.is_empty():
         exp = b_m
@@ -849,6 +949,8 @@ def op_join(S, op):
     what = f"{a_m.space_items()}.join({b_m.space_items()}) batch {a_m.batch}"
     out = lib_call(S, what, "join", lambda: a_r.join(b_r))
     ok = out is not FAILED and agree(S, out, exp, "model-mismatch", "join", what)
+    if ok and probing:
+        ok, exp = probe_write(S, out, exp, op, "join", [(a_r, a_m, "a"), (b_r, b_m, "b")])
     push(S, out, exp, ok)
 
 
@@ -886,6 +988,8 @@ def op_joined(S, op):
     if not m.names or len(m.names) > MAX_VARS - 3:
         S.skipped += 1
         return
+    if op.get("probe"):
+        real = private(S, real, m)
     parts = [(real, m)]
     taken = list(m.names)
     for k, o in enumerate((op.get("others") or [])[:3]):
@@ -911,6 +1015,10 @@ def op_joined(S, op):
     what = "Points.joined(" + ", ".join(str(pm.space_items()) for _, pm in parts) + f") batch {m.batch}"
     out = lib_call(S, what, feature, lambda: Points.joined(*[p for p, _ in parts]))
     ok = out is not FAILED and agree(S, out, exp, "model-mismatch", feature, what)
+    if ok and not lead_empty:
+        ok, exp = probe_write(S, out, exp, op, "joined",
+                              [(pr, pm, "#%d" % i) for i, (pr, pm) in enumerate(parts)
+                               if not pm.is_empty()])
     push(S, out, exp, ok)
 
 
@@ -952,6 +1060,11 @@ def op_or(S, op):
             o_r = build_real(S, o_m)
             if rows == 0:
                 S.cls("or:zero-rows")
+    probing = bool(op.get("probe")) and not m.is_empty() and not o_m.is_empty()
+    if probing:       # (| with an empty operand returns the other operand itself)
+        same = o_r is real
+        real = private(S, real, m)
+        o_r = real if same else private(S, o_r, o_m)
     a_r, a_m, b_r, b_m = (real, m, o_r, o_m) if left else (o_r, o_m, real, m)
     if a_m.is_empty():
         exp = b_m
@@ -966,6 +1079,8 @@ def op_or(S, op):
     what = f"{a_m.space_items()} batch {a_m.batch} | batch {b_m.batch}"
     out = lib_call(S, what, "or", lambda: a_r | b_r)
     ok = out is not FAILED and agree(S, out, exp, "model-mismatch", "or", what)
+    if ok and probing:
+        ok, exp = probe_write(S, out, exp, op, "or", [(a_r, a_m, "a"), (b_r, b_m, "b")])
     push(S, out, exp, ok)
 
 
@@ -974,11 +1089,36 @@ def op_repeat(S, op):
     if not m.names:
         S.skipped += 1
         return
+    pre = op.get("pre")
+    if op.get("probe") or pre:
+        real = private(S, real, m)
+    if pre == "row" and m.rows > 0:
+        # a single row / block: batch axis 0 has length one
+        m = M(m.names, {k: np.ascontiguousarray(v[:1]) for k, v in m.cols.items()},
+              (1,) + m.batch[1:])
+        real = build_real(S, m)
+        S.cls("repeat:single-row")
+    elif pre == "unsq0" and m.nb < MAX_BATCH_AXES:
+        # (1, n, ...) batch produced by the library's own unsqueeze(0)
+        m = M(m.names, {k: np.expand_dims(v, 0) for k, v in m.cols.items()}, (1,) + m.batch)
+        src = real
+        real = lib_call(S, "unsqueeze(0)", "unsqueeze", lambda: src.unsqueeze(0))
+        if real is FAILED or not agree(S, real, m, "model-mismatch", "unsqueeze",
+                                       f"unsqueeze(0) before repeat, batch {m.batch}"):
+            return
+        S.cls("repeat:after-unsqueeze0")
     n = [1 + int(v) % 3 for v in (op.get("n") or [2])][:m.nb] or [2]
+    if op.get("only1"):
+        # repeat only the batch axes of length one
+        n = [r if b == 1 else 1 for r, b in zip(n, m.batch)]
     reps = tuple(n) + (1,) * (m.nb - len(n))
     if m.rows * int(np.prod(reps)) * m.dim > MAX_CELLS:
         S.skipped += 1
         return
+    if any(b == 1 and r > 1 for b, r in zip(m.batch, reps)):
+        S.cls("repeat:length-one-axis")
+        if all(b == 1 or r == 1 for b, r in zip(m.batch, reps)):
+            S.cls("repeat:only-length-one-axes")
     args = list(n)
     if op.get("trail1") and len(n) == m.nb:
         args = args + [1]        # the form the library itself uses: x.repeat(n, 1)
@@ -988,6 +1128,8 @@ def op_repeat(S, op):
     what = f"repeat{tuple(args)} on batch {m.batch}"
     out = lib_call(S, what, "repeat", lambda: real.repeat(*args))
     ok = out is not FAILED and agree(S, out, exp, "model-mismatch", "repeat", what)
+    if ok:
+        ok, exp = probe_write(S, out, exp, op, "repeat", [(real, m, "p")])
     push(S, out, exp, ok)
 
 
@@ -1005,8 +1147,13 @@ def op_unsq(S, op):
     feature = "unsqueeze-negative" if dim < 0 else "unsqueeze"
     S.cls("op:" + feature)
     what = f"unsqueeze({dim}) on batch {m.batch}"
+    if op.get("probe"):
+        real = private(S, real, m)
     out = lib_call(S, what, feature, lambda: real.unsqueeze(dim))
     ok = out is not FAILED and agree(S, out, exp, "model-mismatch", feature, what)
+    if ok:
+        # torch.unsqueeze returns a view of the operand: only the result itself is compared
+        ok, exp = probe_write(S, out, exp, op, "unsqueeze", [])
     push(S, out, exp, ok)
 
 
@@ -1057,6 +1204,10 @@ def op_arith(S, op):
         kind = "nonzero" if f == "div" else "exponent" if f == "pow" else "any"
         o_m = fresh_model(m.space_items(), m.batch, op.get("fill", [0, 1]), S.dtype, kind)
         o_r = build_real(S, o_m)
+    if op.get("probe"):
+        same = o_r is real
+        real = private(S, real, m)
+        o_r = real if same else private(S, o_r, o_m)
     with np.errstate(all="ignore"):
         cols = {n: ARITH[f](m.cols[n], o_m.cols[n]).astype(S.dtype) for n in m.names}
     exp = M(m.names, cols, m.batch)
@@ -1071,6 +1222,8 @@ def op_arith(S, op):
         # adopt the library's (tolerated) rounding so later steps stay bit-comparable
         exp = model_from_table(m.names, m.dims,
                                np.ascontiguousarray(out.as_tensor.detach().cpu().numpy()))
+    if ok:
+        ok, exp = probe_write(S, out, exp, op, "arith", [(real, m, "a"), (o_r, o_m, "b")])
     push(S, out, exp, ok)
 
 
@@ -1283,11 +1436,18 @@ def op_space(S, op):
     ib = op.get("b")
     ia = None if ia is None else int(ia) % len(names)
     ib = None if ib is None else int(ib) % len(names)
-    sl = slice(None if ia is None else names[ia], None if ib is None else names[ib])
-    exp_items = p_items[slice(ia, ib)]
-    r = lib_call(S, "P[a:b]", "space-getitem", lambda: Pr[sl])
+    step = op.get("s")
+    step = None if step is None else (int(step) or -1)
+    sl = slice(None if ia is None else names[ia], None if ib is None else names[ib], step)
+    exp_items = p_items[slice(ia, ib, step)]
+    if step is not None:
+        S.cls("space:slice-step-neg" if step < 0 else "space:slice-step-pos")
+        if step < 0 and (ia is None or ib is None):
+            S.cls("space:slice-step-neg-open")
+    r = lib_call(S, "P[a:b:s]", "space-getitem", lambda: Pr[sl])
     if r is not FAILED:
-        sp_ok(r, exp_items, "space-getitem-slice", f"P[{sl.start!r}:{sl.stop!r}] of {p_items}")
+        sp_ok(r, exp_items, "space-getitem-slice",
+              f"P[{sl.start!r}:{sl.stop!r}:{sl.step!r}] of {p_items}")
     # the factor must be unchanged by all of this
     if list(A.items()) != a_items:
         ctx.violation("input-modified", "space", f"factor space changed to {list(A.items())}")
@@ -1382,12 +1542,32 @@ _SEL = st.one_of(
     _fd(t=st.just("names"), pos=st.lists(_POS, min_size=2, max_size=5),
         **{"as": st.sampled_from(["tuple", "list"])}),
     _fd(t=st.just("nslice"), a=st.one_of(st.none(), _POS), b=st.one_of(st.none(), _POS)),
+    # name slice with a step; negative steps with an omitted bound are over-weighted
+    _fd(t=st.just("nslice"), a=st.one_of(st.none(), st.none(), _POS),
+        b=st.one_of(st.none(), st.none(), _POS), s=st.sampled_from([-1, -1, -1, -2, -2, -3, 2, 1])),
 )
 _IDX = _fd(form=st.sampled_from(["bare", "bare", "batch", "batch", "full", "full", "full",
                                  "ell", "ell", "ell", "ell-only", "bare-ell", "bare-maskn"]),
            items=st.lists(_ITEM, min_size=1, max_size=3), k=st.integers(0, 3),
            kp=st.integers(0, 3), sel=_SEL,
            bits=st.lists(st.booleans(), min_size=1, max_size=6))
+
+# follow-up write into one row/block of a fresh result: the first entry addresses batch axis 0
+_PROBE_ROW = st.one_of(
+    _fd(t=st.just("int"), v=st.integers(-8, 7)),
+    _fd(t=st.just("int"), v=st.integers(-8, 7)),
+    _fd(t=st.just("slice"), a=st.integers(-4, 4), b=_OPTI, s=st.sampled_from([None, None, 2])),
+    _fd(t=st.just("idx"), v=st.lists(st.integers(-8, 7), min_size=1, max_size=2),
+        **{"as": st.sampled_from(["torch", "numpy", "list"])}),
+    _fd(t=st.just("mask"), bits=st.lists(st.booleans(), min_size=2, max_size=4),
+        **{"as": st.sampled_from(["torch", "numpy"])}),
+)
+_PROBE = _fd(idx=_fd(form=st.sampled_from(["bare", "batch", "batch", "full", "ell", "ell"]),
+                     items=st.tuples(_PROBE_ROW, _ITEM, _ITEM).map(list), k=st.integers(0, 3),
+                     kp=st.integers(0, 1), sel=_SEL, bits=st.just([True])),
+             fill=_FILL)
+_PROBE_SOME = st.one_of(st.none(), _PROBE)            # every 2nd step is followed by a write
+_PROBE_FEW = st.one_of(st.none(), st.none(), st.none(), _PROBE)
 
 _JOIN_OTHER = st.one_of(
     _fd(kind=st.just("fresh"), vars=_VARS_S, fill=_FILL),
@@ -1412,7 +1592,11 @@ def _new_op():
 
 
 def _op():
-    get = _fd(op=st.just("get"), src=_REF, idx=_IDX)
+    get = _fd(op=st.just("get"), src=_REF, idx=_IDX, probe=_PROBE_FEW)
+    repeat = _fd(op=st.just("repeat"), src=_REF, n=st.lists(st.integers(0, 2), min_size=1, max_size=3),
+                 trail1=st.booleans(), pre=st.sampled_from([None, None, None, "row", "unsq0"]),
+                 only1=st.sampled_from([False, False, True]),
+                 probe=st.one_of(st.none(), _PROBE, _PROBE))
     setv = _fd(op=st.just("set"), src=_REF, idx=_IDX, fill=_FILL,
                bad=st.sampled_from([False] * 7 + [True]))
     return st.one_of(
@@ -1421,28 +1605,31 @@ def _op():
         _fd(op=st.just("commute"), src=_REF, row=_ROW, sel=_SEL),
         _new_op(),
         _fd(op=st.just("coords"), src=_REF),
-        _fd(op=st.just("join"), src=_REF, other=_JOIN_OTHER, side=_SIDE),
-        _fd(op=st.just("join"), src=_REF, other=_JOIN_OTHER, side=_SIDE),
+        _fd(op=st.just("join"), src=_REF, other=_JOIN_OTHER, side=_SIDE, probe=_PROBE_SOME),
+        _fd(op=st.just("join"), src=_REF, other=_JOIN_OTHER, side=_SIDE, probe=_PROBE_SOME),
         _fd(op=st.just("join3"), src=_REF, b=_VARS_S, c=_VARS_S, fb=_FILL, fc=_FILL),
         _fd(op=st.just("joined"), src=_REF,
             others=st.lists(_fd(vars=_VARS_S, fill=_FILL), min_size=0, max_size=3),
-            srcpos=st.integers(0, 3), empties=st.lists(st.integers(0, 4), max_size=2)),
-        _fd(op=st.just("or"), src=_REF, other=_OR_OTHER, side=_SIDE),
-        _fd(op=st.just("or"), src=_REF, other=_OR_OTHER, side=_SIDE),
-        _fd(op=st.just("repeat"), src=_REF, n=st.lists(st.integers(0, 2), min_size=1, max_size=3),
-            trail1=st.booleans()),
-        _fd(op=st.just("unsq"), src=_REF, dim=st.integers(0, 9)),
+            srcpos=st.integers(0, 3), empties=st.lists(st.integers(0, 4), max_size=2),
+            probe=_PROBE_SOME),
+        _fd(op=st.just("or"), src=_REF, other=_OR_OTHER, side=_SIDE, probe=_PROBE_SOME),
+        _fd(op=st.just("or"), src=_REF, other=_OR_OTHER, side=_SIDE, probe=_PROBE_SOME),
+        repeat, repeat,
+        _fd(op=st.just("unsq"), src=_REF, dim=st.integers(0, 9), probe=_PROBE_SOME),
         _fd(op=st.just("arith"), src=_REF, f=st.sampled_from(["add", "sub", "mul", "div", "pow"]),
-            other=st.sampled_from(["fresh", "fresh", "self", "ref", "badspace"]), ref=_REF, fill=_FILL),
+            other=st.sampled_from(["fresh", "fresh", "self", "ref", "badspace"]), ref=_REF, fill=_FILL,
+            probe=_PROBE_FEW),
         _fd(op=st.just("arith"), src=_REF, f=st.sampled_from(["add", "sub", "mul", "div", "pow"]),
-            other=st.sampled_from(["fresh", "fresh", "self", "ref", "badspace"]), ref=_REF, fill=_FILL),
+            other=st.sampled_from(["fresh", "fresh", "self", "ref", "badspace"]), ref=_REF, fill=_FILL,
+            probe=_PROBE_FEW),
         _fd(op=st.just("eq"), src=_REF, ref=_REF, cell=st.integers(0, 40),
             variant=st.sampled_from(["copy", "reorder", "reorder", "rename", "perturb", "ref"])),
         _fd(op=st.just("track"), src=_REF),
         _fd(op=st.just("iter"), src=_REF),
         _fd(op=st.just("space"), src=_REF, other=_VARS, third=_VARS_S,
             pick=st.lists(_POS, min_size=1, max_size=4),
-            a=st.one_of(st.none(), _POS), b=st.one_of(st.none(), _POS)),
+            a=st.one_of(st.none(), _POS), b=st.one_of(st.none(), _POS),
+            s=st.sampled_from([None, None, -1, -1, -2, -3, 2, 1])),
     )
 
 
@@ -1550,4 +1737,80 @@ def extra_cases(tier, seed):
             ops.append({"op": "commute", "src": 0, "row": r, "sel": {"t": "name", "pos": 1}})
         specs.append({"dtype": "float64", "init": {"op": "new", "vars": vs, "batch": batch,
                                                    "fill": [0, -1], "via": "coords"}, "ops": ops})
+    specs += _pinned_step_slices() + _pinned_probes()
+    return specs
+
+
+def _pinned_step_slices():
+    """Name slices with a step (all combinations of omitted / given bounds) as Space index and
+    as column selector of Points (get, set, commutation)."""
+    NS = lambda a, b, s: {"t": "nslice", "a": a, "b": b, "s": s}          # noqa: E731
+    sels = [NS(None, None, -1), NS(2, None, -1), NS(None, 0, -2), NS(None, 1, -1), NS(3, 0, -1),
+            NS(1, None, -2), NS(None, None, -2), NS(None, None, 2), NS(1, None, 2), NS(0, 3, 2),
+            NS(None, None, -3), NS(3, 1, 1)]
+    row = {"t": "slice", "a": None, "b": None, "s": None}
+    specs = []
+    for bi, (batch, vs) in enumerate([([3], [["x", 2], ["t", 1], ["u", 3], ["a", 1]]),
+                                      ([2, 3], [["k", 1], ["D", 2], ["w", 1], ["x", 1], ["t", 2]])]):
+        ops = []
+        for j, sel in enumerate(sels):
+            full = {"form": "full", "items": [row], "k": 0, "kp": 0, "sel": sel, "bits": [True]}
+            ell = {"form": "ell", "items": [{"t": "int", "v": j}], "k": j % 2, "kp": 0, "sel": sel,
+                   "bits": [True]}
+            ops.append({"op": "get", "src": 0, "idx": full})
+            ops.append({"op": "get", "src": 0, "idx": ell})
+            ops.append({"op": "set", "src": 0, "idx": full if j % 2 else ell, "fill": [2, 3], "bad": False})
+            ops.append({"op": "commute", "src": 0, "row": {"t": "slice", "a": 1, "b": None, "s": None},
+                        "sel": sel})
+            ops.append({"op": "space", "src": 0, "other": [["y", 1], ["q", 2]], "third": [["x", 1]],
+                        "pick": [1, 0], "a": sel["a"], "b": sel["b"], "s": sel["s"]})
+        specs.append({"dtype": "float64" if bi == 0 else "float32",
+                      "init": {"op": "new", "vars": vs, "batch": batch, "fill": [0, 1], "via": "tensor"},
+                      "ops": ops})
+    return specs
+
+
+def _pinned_probes():
+    """Every result-producing operation followed by a write into one row/block of the result;
+    repeat on batch axes of length one (single row, (1, n) after unsqueeze(0), middle axis)."""
+    def PR(row, form="bare", sel=None, k=0, fill=(3, 5)):
+        return {"idx": {"form": form, "items": [row, {"t": "slice", "a": None, "b": None, "s": None}],
+                        "k": k, "kp": 0, "sel": sel or {"t": "nslice", "a": None, "b": None},
+                        "bits": [True]}, "fill": list(fill)}
+    I = lambda v: {"t": "int", "v": v}                                    # noqa: E731
+    name = {"t": "name", "pos": 1}
+    probes = [PR(I(1)), PR(I(-1), "batch"), PR(I(1), "ell", name, k=1),
+              PR({"t": "slice", "a": 1, "b": 2, "s": None}, "ell", {"t": "names", "pos": [1, 0], "as": "tuple"}, k=1),
+              PR({"t": "idx", "v": [1], "as": "list"}, "batch"), PR(I(0), "ell", name, k=1)]
+    specs = []
+    for bi, batch in enumerate([[1], [4], [1, 3], [3, 1], [2, 1, 2]]):
+        ops = []
+        for j, pr in enumerate(probes):
+            for pre in (None, "row", "unsq0"):
+                for n in ([1], [2], [2, 0, 1]):
+                    ops.append({"op": "repeat", "src": 0, "n": n, "trail1": j % 2 == 0, "pre": pre,
+                                "only1": (j + len(n)) % 2 == 0, "probe": pr})
+        pr = probes
+        ops += [{"op": "join", "src": 0, "other": {"kind": "fresh", "vars": [["y", 2]], "fill": [1, 1]},
+                 "side": "left", "probe": pr[0]},
+                {"op": "join", "src": 0, "other": {"kind": "fresh", "vars": [["y", 1]], "fill": [1, 1]},
+                 "side": "right", "probe": pr[2]},
+                {"op": "joined", "src": 0, "others": [{"vars": [["y", 1]], "fill": [0, 2]}], "srcpos": 1,
+                 "empties": [2], "probe": pr[3]},
+                {"op": "joined", "src": 0, "others": [], "srcpos": 0, "empties": [1], "probe": pr[1]},
+                {"op": "or", "src": 0, "other": {"kind": "fresh", "rows": 2, "fill": [1, 2]}, "side": "left",
+                 "probe": pr[1]},
+                {"op": "or", "src": 0, "other": {"kind": "self"}, "side": "left", "probe": pr[2]},
+                {"op": "arith", "src": 0, "f": "add", "other": "self", "ref": 0, "fill": [2, 1], "probe": pr[0]},
+                {"op": "arith", "src": 0, "f": "mul", "other": "fresh", "ref": 0, "fill": [2, 1], "probe": pr[5]},
+                {"op": "unsq", "src": 0, "dim": 0, "probe": pr[0]},
+                {"op": "unsq", "src": 0, "dim": 1, "probe": pr[5]},
+                {"op": "get", "src": 0, "idx": {"form": "bare", "items": [{"t": "slice", "a": 0, "b": 3, "s": None}]},
+                 "probe": pr[5]},
+                {"op": "get", "src": 0, "idx": {"form": "ell", "items": [{"t": "idx", "v": [0, 0, 0], "as": "torch"}],
+                                                "k": 1, "kp": 0, "sel": {"t": "name", "pos": 0}}, "probe": pr[0]}]
+        specs.append({"dtype": "float64" if bi % 2 == 0 else "float32", "avoid_known": True,
+                      "init": {"op": "new", "vars": [["x", 2], ["t", 1], ["u", 1]], "batch": batch,
+                               "fill": [1, 2], "via": VIAS[bi % len(VIAS)]},
+                      "ops": ops})
     return specs
